@@ -141,7 +141,7 @@ impl Pool {
             bin: bin.to_path_buf(),
             workers: n.min(16),
             env: default_env(),
-            deadline: Duration::from_secs(4),
+            deadline: Duration::from_secs(8),
         }
     }
 
@@ -576,6 +576,10 @@ pub fn cleanup_tmp() {
 /// Run one script through the unmodified CLI path in a scratch directory; the
 /// script is passed as `case.sd`.
 pub fn run_cli_simple(bin: &Path, src: &[u8]) -> Result<CliOutcome, MachineryError> {
+    run_cli_at(bin, src, "case.sd")
+}
+
+fn run_cli_simple_unused(bin: &Path, src: &[u8]) -> Result<CliOutcome, MachineryError> {
     let d = scratch_dir();
     std::fs::write(d.join("case.sd"), src).map_err(|e| MachineryError(e.to_string()))?;
     let env = default_env();
@@ -595,6 +599,15 @@ pub fn run_cli_simple(bin: &Path, src: &[u8]) -> Result<CliOutcome, MachineryErr
 /// Run one script through the unmodified CLI with the script stored under the relative
 /// path `rel` (directories created as needed) in a scratch directory.
 pub fn run_cli_at(bin: &Path, src: &[u8], rel: &str) -> Result<CliOutcome, MachineryError> {
+    let o = run_cli_at_once(bin, src, rel, Duration::from_secs(6))?;
+    if o.timed_out {
+        // a slow start under load is not a hang: decide with a generous limit
+        return run_cli_at_once(bin, src, rel, Duration::from_secs(40));
+    }
+    Ok(o)
+}
+
+fn run_cli_at_once(bin: &Path, src: &[u8], rel: &str, timeout: Duration) -> Result<CliOutcome, MachineryError> {
     let d = scratch_dir();
     let full = d.join(rel);
     if let Some(parent) = full.parent() {
@@ -609,7 +622,7 @@ pub fn run_cli_at(bin: &Path, src: &[u8], rel: &str) -> Result<CliOutcome, Machi
         env: &env,
         stdin: StdinMode::Null,
         to_files: None,
-        timeout: Duration::from_secs(6),
+        timeout,
     });
     let _ = std::fs::remove_dir_all(&d);
     r
